@@ -39,6 +39,25 @@ def _check_one(res, fns, lst, x, origin):
             res.count("direct.none")
 
 
+def _check_single(res, fns, name, lst, x, origin):
+    """One helper call on the caller's own list object (not a copy)."""
+    res.evaluations += 1
+    want = contracts.ref_find(name, lst, x)
+    try:
+        got = fns[name](lst, x)
+    except contracts.ContractBroken:
+        got = "contract-broken"
+    except Exception as e:  # helpers never raise on valid input
+        got = f"raised {type(e).__name__}"
+    res.count("direct.in_sequence")
+    if got != want or not (got is None or type(got) is int):
+        res.violate(Violation(
+            "C18", f"{name}-wrong-position",
+            {"list": list(lst), "probe": x, "expected": want, "observed": got, "origin": origin, "note": "one of a sequence of calls on the same list object"},
+            replay={"list": list(lst), "probe": x, "fn": name},
+        ))
+
+
 def run(res, tier, seed, shard, nshards):
     import tinyflux.utils as tutils
 
@@ -87,6 +106,18 @@ def run(res, tier, seed, shard, nshards):
             for x in (rng.randrange(-4, 5), rng.randrange(-4, 5)):
                 _check_one(res, raw, half, x, "random-halves-int-probe")
                 res.seen((tuple(half), x, "int"))
+    # sequences: many calls of different helpers with different probes on ONE list object (whatever a helper may
+    # remember about the previous call must not leak into the next)
+    n_seq = 400 if tier == "quick" else 6000
+    for i in range(n_seq):
+        n = rng.randrange(1, 12)
+        lst = sorted(rng.choice([1, 2, 2, 2, 3, 5, 5, 8]) * (1.0 if i % 2 else 1) for _ in range(n))
+        for _ in range(rng.randrange(3, 25)):
+            x = rng.choice([0, 1, 2, 3, 4, 5, 6, 8, 9, 2.5])
+            name = rng.choice(NAMES)
+            _check_single(res, raw, name, lst, x, "sequence")
+        res.seen((tuple(lst), "sequence", i))
+    res.counters["call_sequences_on_one_list"] = n_seq
     # lists that begin / end with infinities, probed with the infinities (exhaustive over a small domain)
     INF = float("inf")
     dom = [-INF, -1.0, 2.0, INF]
